@@ -90,7 +90,7 @@ var propMeta = map[string]meta{
 	},
 	"C04": {
 		Level:       "exploration",
-		Rule:        "one run = a cookie issued to address A - half of the runs through the real login + download flow of the gateway with the browser at A (as TCP peer or as first X-Forwarded-For element of a chain), half harness-minted under the configured key with clientIp = A - presented from address B (equal or different; IPv4/IPv6; as TCP peer or as first element of an X-Forwarded-For chain of length 1-5 with varied separators; legacy OUT channel optionally from a third address) under verifyclientip absent/true/false, both transports; oracle: channel created iff verification off or A==B textually, refusal carries an access-denied status and zero dials; non-trivial = channel request sent; distinct = journal shape",
+		Rule:        "one run = a cookie issued to address A - half of the runs through the real login + download flow of the gateway with the browser at A (as TCP peer or as first X-Forwarded-For element of a chain), half harness-minted under the configured key with clientIp = A - presented from address B (equal, different, or textually near: appended digit, dropped character, one character changed, prefixed; IPv4/IPv6; the login that created the browser session may have come from a third address; as TCP peer or as first element of an X-Forwarded-For chain of length 1-5 with varied separators; legacy OUT channel optionally from a third address) under verifyclientip absent/true/false, both transports; oracle: channel created iff verification off or A==B textually, refusal carries an access-denied status and zero dials; non-trivial = channel request sent; distinct = journal shape",
 		Components:  comp(nil, nil),
 		Assumptions: append([]string{"same IP written differently is a don't-care region and is not generated"}, commonAssumptions...),
 	},
